@@ -16,30 +16,31 @@ theorem C13_stop_at_boundary {σ : Type} (sem : CmdSem σ) (is : List Instructio
     (labels : List (Str × Nat)) (halt : Nat → σ → Bool) (fuel : Nat) (rs : RunState σ)
     (h : halt rs.polls rs.st = true) :
     runLoop sem is labels halt (fuel + 1) rs = (rs, .halted) := by
-  sorry
+  rw [runLoop_succ, runStep_halt_true sem is labels halt rs h]
 
 /-- Until the flag is seen, a halt-able run does exactly what the un-halted run does. -/
 theorem C13_same_until_seen {σ : Type} (sem : CmdSem σ) (is : List Instruction)
     (labels : List (Str × Nat)) (halt : Nat → σ → Bool) (rs : RunState σ)
     (h : halt rs.polls rs.st = false) :
     runStep sem is labels halt rs = runStep sem is labels noHalt rs := by
-  sorry
+  exact runStep_halt_false sem is labels halt rs h
 
 /-- every iteration polls the flag exactly once -/
 theorem C13_one_poll_per_iteration {σ : Type} (sem : CmdSem σ) (is : List Instruction)
     (labels : List (Str × Nat)) (halt : Nat → σ → Bool) (rs rs' : RunState σ)
     (h : runStep sem is labels halt rs = .inl rs') : rs'.polls = rs.polls + 1 := by
-  sorry
+  exact runStep_inl_polls sem is labels halt rs rs' h
 
 /-- If the flag is raised for good by poll number `K` at the latest (whatever the state), every
-    program — also one that would loop forever — returns within `K - polls + 1` iterations,
-    successfully (never by running out of fuel), on every path (continue, goto, handled error). -/
+    program — also one that would loop forever — returns within `K - polls + 1` iterations
+    (at least one iteration being allowed), successfully (never by running out of fuel), on
+    every path (continue, goto, handled error). -/
 theorem C13_terminates {σ : Type} (sem : CmdSem σ) (is : List Instruction)
     (labels : List (Str × Nat)) (halt : Nat → σ → Bool) (K : Nat)
     (hK : ∀ k s, K ≤ k → halt k s = true) (rs : RunState σ) (fuel : Nat)
-    (hfuel : K + 1 - rs.polls ≤ fuel) :
+    (hfuel : K + 1 - rs.polls ≤ fuel) (hpos : 0 < fuel) :
     (runLoop sem is labels halt fuel rs).2 ≠ .outOfFuel := by
-  sorry
+  exact runLoop_halt_terminates sem is labels halt K hK fuel rs hfuel hpos
 
 /-- `n` iterations of the un-halted run (`none` if it ends earlier) -/
 def iterSteps {σ : Type} (sem : CmdSem σ) (is : List Instruction) (labels : List (Str × Nat)) :
@@ -62,6 +63,60 @@ theorem C13_prefix {σ : Type} (sem : CmdSem σ) (is : List Instruction)
       halt rsj.polls rsj.st = false)
     (hseen : halt rsn.polls rsn.st = true) (extra : Nat) :
     runLoop sem is labels halt (n + extra + 1) rs = (rsn, .halted) := by
-  sorry
+  induction n generalizing rs with
+  | zero =>
+    simp only [iterSteps, Option.some.injEq] at hrun
+    subst hrun
+    rw [runLoop_succ, runStep_halt_true sem is labels halt rs hseen]
+  | succ n ih =>
+    have h0 : halt rs.polls rs.st = false := hnot 0 rs (Nat.succ_pos n) rfl
+    have hadd : n + 1 + extra + 1 = (n + extra + 1) + 1 := by omega
+    rw [hadd, runLoop_succ, runStep_halt_false sem is labels halt rs h0]
+    cases hs : runStep sem is labels noHalt rs with
+    | inl rs1 =>
+      simp only [iterSteps, hs] at hrun
+      refine ih rs1 hrun (fun j rsj hj hrj => hnot (j + 1) rsj (by omega) ?_)
+      simp only [iterSteps, hs]
+      exact hrj
+    | inr r =>
+      simp only [iterSteps, hs] at hrun
+      exact absurd hrun (by simp)
+
+/-! ### non-vacuity: an endless loop and a flag raised at the third poll -/
+
+namespace C13Example
+
+/-- `goto` line 0 forever -/
+def prog : List Instruction := [ ⟨{}, .script { command := some "loop".toList }⟩ ]
+
+/-- `loop` counts its calls in the state and jumps back to line 0 -/
+def sem : CmdSem Nat := fun _ _ _ _ vars s => some (.goTo none (.line 0), vars, s + 1)
+
+/-- the flag is up from poll number 2 on -/
+def halt : Nat → Nat → Bool := fun k _ => decide (2 ≤ k)
+
+def rs0 : RunState Nat := ⟨0, 0, [], 0⟩
+
+/-- un-halted, the program never finishes -/
+example : (runLoop sem prog (labelTable prog) noHalt 50 rs0).2 = .outOfFuel := by rfl
+
+/-- halted: two instructions are run, then the run ends as `halted` -/
+example : runLoop sem prog (labelTable prog) halt 50 rs0 = (⟨0, 2, [], 2⟩, .halted) :=
+  C13_prefix sem prog (labelTable prog) halt 2 rs0 ⟨0, 2, [], 2⟩ (by rfl)
+    (by
+      intro j rsj hj h
+      match j, hj, h with
+      | 0, _, h => cases h; rfl
+      | 1, _, h => cases h; rfl)
+    (by rfl) 47
+
+example : (runLoop sem prog (labelTable prog) halt 3 rs0).2 ≠ .outOfFuel :=
+  C13_terminates sem prog (labelTable prog) halt 2
+    (fun k _ hk => by simp [halt, hk]) rs0 3 (by decide) (by decide)
+
+example : runLoop sem prog (labelTable prog) halt 1 ⟨0, 2, [], 2⟩ = (⟨0, 2, [], 2⟩, .halted) :=
+  C13_stop_at_boundary sem prog (labelTable prog) halt 0 ⟨0, 2, [], 2⟩ (by rfl)
+
+end C13Example
 
 end Duck
